@@ -214,6 +214,34 @@ def fam_response_cancel():
                "events": [notif(1, 5, 0), ["RC", 2], notif(3, 6, 1), notif(4, 7, 2), ["M", 5, 132, None, 3, 1]]}
 
 
+def fam_errback_cancels():
+    """the application's errback calls observation.cancel() on the observation it is being told the end of, at
+    every way an observation can end: failure of the initial request (six exception kinds), not observable
+    (no Observe / non-2.xx with Observe / marked last), later a transport failure, a final response (marked last or
+    not), a last notification, response.cancel() before the first response; then more events"""
+    ends_first = ([["X", 5, k] for k in range(6)] + [["M", 5, 69, None, 40, 1], ["M", 5, 69, None, 40, 0],
+                  ["M", 5, 132, 7, 40, 1], ["M", 5, 132, 7, 40, 0], ["M", 5, 69, 7, 40, 1], ["RC", 5]])
+    ends_later = ([["X", 20, k] for k in range(6)] + [["M", 20, 132, None, 41, 1], ["M", 20, 69, None, 41, 0],
+                  ["M", 20, 160, 9, 41, 1], ["M", 20, 69, 9, 41, 1], ["M", 20, 69, 1, 41, 1]])
+    its = (None, {"mode": "attentive", "start": 0}, {"mode": "lazy", "start": 0}, {"mode": "busy", "start": 0, "work": 2})
+    for e in ends_first:
+        for it in its:
+            if e[0] == "X" and e[2] >= 4 and it is not None:
+                continue
+            yield {"observe": True, "eb_cancels": True, "iter": it, "events": [e, notif(30, 8, 42)]}
+    for e in ends_later:
+        for it in its:
+            if e[0] == "X" and e[2] >= 4 and it is not None:
+                continue
+            yield {"observe": True, "eb_cancels": True, "iter": it,
+                   "events": [notif(5, 7, 40), notif(10, 8, 43), e, notif(30, 10, 42)]}
+    # ... and the application calls observation.cancel() once more afterwards: nothing happens
+    for e in (["X", 5, 2], ["M", 5, 132, None, 40, 1]):
+        yield {"observe": True, "eb_cancels": True, "iter": None, "events": [e, ["OC", 9], notif(30, 8, 42)]}
+        yield {"observe": True, "eb_cancels": False, "iter": None,
+               "events": [notif(1, 3, 39), e, ["OC", 9], ["OC", 10], notif(30, 8, 42)]}
+
+
 def fam_app():
     vals = [10, 11, 5, 12, 13]
     for pos in range(0, 6):
@@ -311,7 +339,10 @@ def random_history(rng, R):
         it = {"mode": "busy", "start": rng.randrange(0, len(out) + 1), "work": rng.randrange(1, 5)}
     if any(e[0] == "X" and e[2] >= 4 for e in out):
         it = None       # _Iterator.__del__ reports exceptions that are not NetworkErrors on stderr
-    return {"observe": observe, "events": out, "iter": it}
+    h = {"observe": observe, "events": out, "iter": it}
+    if rng.random() < 0.15:
+        h["eb_cancels"] = True
+    return h
 
 
 def level_a_cases(env, R):
@@ -325,6 +356,7 @@ def level_a_cases(env, R):
     fams.append(("codes", list(fam_codes())))
     fams.append(("cancel-in-callback", list(fam_cancel_in_callback())))
     fams.append(("response-cancel", list(fam_response_cancel())))
+    fams.append(("errback-cancels", list(fam_errback_cancels())))
     wrap = [M24 - 2, M24 - 1, 0, 1]
     half = [5, 5 + M23 - 1, 5 + M23, 5 + M23 + 1]
     over = [0, M24 - 1, M24, M24 + 1]
@@ -491,6 +523,19 @@ def stack_audit_scripts():
                    ["R", 9, 0, False, "NON", 69, 302, TOK, 7, 3], ["A", 30]]
             out.append({"events": evs, "rules": [], "draws": [], "mid": c07_stack.REQ_MID, "token": 32,
                         "consumer": {"work": 0}})
+    # the errback cancels the observation it is being told the end of: Reset of the request, network error, shutdown,
+    # final response, not observable -- with other requests outstanding at the shutdown (the sweep must go on)
+    first = ["R", 3, 0, False, "ACK", 69, c07_stack.REQ_MID, TOK, 5, 1]
+    S1 = ["S", 1, 1, 1, False, False, None, True, 1, None, 0, 4]
+    for evs in ([S, ["R", 3, 0, False, "RST", 0, c07_stack.REQ_MID, "-", None, 0]],
+                [S, ["E", 3, 0]], [S, S1, ["X", 3]], [S, first, S1, ["X", 9]], [S, first, ["E", 9, 0]],
+                [S, first, ["R", 9, 0, False, "CON", 132, 300, TOK, None, 2]],
+                [S, first, ["R", 9, 0, False, "NON", 132, 300, TOK, 9, 2]],
+                [S, ["R", 3, 0, False, "ACK", 69, c07_stack.REQ_MID, TOK, None, 1]],
+                [S, ["R", 3, 0, False, "ACK", 132, c07_stack.REQ_MID, TOK, 5, 1]],
+                [S, ["C", 2, 0]]):
+        out.append({"events": evs + [["R", 20, 0, False, "CON", 69, 310, TOK, 11, 5], ["A", 60]], "rules": [],
+                    "draws": [], "mid": c07_stack.REQ_MID, "token": 32, "eb_cancels": True})
     for rel in (True, False):
         for ct in (1, 2, 3000):
             for work in (0, 3):
@@ -564,6 +609,10 @@ def run_level_b(env, rep, R):
         rep.count("b:scripts")
         if sc.get("consumer"):
             rep.count("b:consumer=" + ("busy" if sc["consumer"]["work"] else "attentive"))
+        if sc.get("eb_cancels"):
+            for e in ("NotObservable", "ObservationCancelled", "T0", "T2", "T3"):
+                if ":eb:" + e in res["impl_line"]:
+                    rep.count("b:errback-cancels:" + e)
         evk = [e[0] for e in sc["events"]]
         if "C" in evk and all(e[0] not in ("R", "E", "X") for e in sc["events"][:evk.index("C")]):
             rep.count("b:response-cancelled-before-first" + (":consumer" if sc.get("consumer") else ""))
@@ -620,6 +669,8 @@ def classify(rep, fam, h, res):
     n_notif = sum(1 for e in h["events"][1:] if e[0] == "M" and e[3] is not None)
     ebs = [c07_pipe.Bench.exc_name(d[1]) for (_, dels, _) in res["raw"] for d in dels if d[0] == "eb"]
     rep.count("a:family=" + fam)
+    if h.get("eb_cancels") and ebs:
+        rep.count("a:errback-cancels:" + ebs[0])
     rep.count("a:events=%d" % min(len(h["events"]), 13))
     rep.count("a:end=" + (ebs[0] if ebs else "none"))
     if h.get("iter"):
@@ -654,7 +705,7 @@ async def run_level_a(env, rep, bench, R, fams):
             cases.append({"level": "a", "history": h})
         compare(env, rep, cases, lines, impl, what="Request._run over a real Pipe (%s)" % fam)
         if fam.startswith("perm") or fam in ("pairs", "timing", "terminators", "app", "cancel-first", "codes",
-                                             "cancel-in-callback", "response-cancel"):
+                                             "cancel-in-callback", "response-cancel", "errback-cancels"):
             rep.exhaustive_parts.append(f"{fam}: {len(hs)} histories")
 
 
@@ -807,6 +858,20 @@ def level_c_cases(env):
                 for rc in (1, 2):
                     out.append({"blockwise": bw, "consumer": cons, "open": op, "work": work, "rc": rc,
                                 "arrivals": [[4] + a for a in script]})
+    # the errback cancels the observation it is being told the end of: at a Reset of the request, a time-out, a network
+    # error (first event and later), not observable, a final response, a given-up request -- and, the observation still
+    # running, at the Context.shutdown() the bench ends with
+    for bw in (False, True):
+        for script in ([["X", 0]], [["X", 1]], [["X", 2]], [["M", 69, None, 1]], [["M", 132, 5, 1]],
+                       [["M", 69, 10, 1], ["M", 69, 11, 2], ["X", 2]], [["M", 69, 10, 1], ["X", 0]],
+                       [["M", 69, 10, 1], ["M", 69, 11, 2], ["M", 132, None, 3]],
+                       [["M", 69, 10, 1], ["M", 132, 12, 2]],
+                       [["M", 69, 10, 1], ["M", 69, 11, 2], ["M", 69, 12, 3]]):
+            for gaps in (APP_GAPS[0], APP_GAPS[1]):
+                out.append({"blockwise": bw, "consumer": "callbacks", "open": 0, "work": 0, "eb_cancels": True,
+                            "arrivals": [[g] + x for g, x in zip(gaps, script)]})
+        out.append({"blockwise": bw, "consumer": "callbacks", "open": 0, "work": 0, "eb_cancels": True, "rc": 0,
+                    "arrivals": []})
     for _ in range(env.scale(400, 20000)):
         n = env.rng.randrange(1, 7)
         cur = env.rng.choice([0, 5, (1 << 23) - 1, (1 << 24) - 2])
@@ -833,6 +898,8 @@ def level_c_cases(env):
         sc = {"blockwise": env.rng.random() < 0.6, "consumer": cons, "open": op, "work": work, "arrivals": arr}
         if cons == "callbacks" and env.rng.random() < 0.3:
             sc["cancel_at"] = env.rng.randrange(1, n + 1)
+        if cons == "callbacks" and env.rng.random() < 0.3:
+            sc["eb_cancels"] = True
         if env.rng.random() < 0.08:
             sc["rc"] = env.rng.choice([0, 0, 1])
             if sc["rc"] == 0:
@@ -858,6 +925,10 @@ async def run_level_c(env, rep, aiocoap):
         if sc.get("rc") is not None:
             rep.count("c:response-cancelled:" + ("before-first" if sc["rc"] == 0 else "later") + ":" +
                       ("blockwise" if sc["blockwise"] else "plain") + ":" + sc["consumer"])
+        if sc.get("eb_cancels"):
+            for x in res["seen"] + (res.get("after_shutdown") or []):
+                if x[0] == "eb":
+                    rep.count("c:errback-cancels:" + x[1])
         if sc.get("cancel_at") is not None:
             rep.count("c:cancel-in-callback" + (":hit" if ("item", sc["cancel_at"]) in res["seen"] else ""))
         if any(a[1] == "M" and a[3] is not None and not 64 <= a[2] < 96 for a in sc["arrivals"]):
@@ -955,6 +1026,12 @@ def run(env, rep):
             "d:block-reply=errb2", "d:block-reply=noblock2", "d:block-reply=neterr",
             "d:notification-overtakes-fetch", "d:state-change-during-fetch", "d:final=non-2.xx-with-observe",
             "d:response-cancelled-before-first", "d:response-cancelled-during-first-body", "d:cancel-in-callback:hit", "d:consumer=iter:busy",
+            "a:family=errback-cancels", "a:errback-cancels:NotObservable", "a:errback-cancels:ObservationCancelled",
+            "a:errback-cancels:NetworkError", "a:errback-cancels:MessageError", "a:errback-cancels:LibraryShutdown",
+            "c:errback-cancels:MessageError", "c:errback-cancels:NetworkError", "c:errback-cancels:NotObservable",
+            "c:errback-cancels:ObservationCancelled", "c:errback-cancels:LibraryShutdown",
+            "b:errback-cancels:T0", "b:errback-cancels:T2", "b:errback-cancels:T3",
+            "b:errback-cancels:NotObservable", "b:errback-cancels:ObservationCancelled",
             "b:response-cancelled-before-first:consumer", "b:non-2.xx-with-observe",
             "b:cancel-before-first", "b:consumer=busy", "b:end=NotObservable", "b:end=ObservationCancelled", "b:end=T2", "b:end=T3",
             "b:rst-sent", "b:ack-sent", "b:event=R:CON", "b:event=R:NON", "b:callbacks"]
